@@ -32,7 +32,7 @@ func (c21) Describe() engine.Info {
 	return engine.Info{
 		Rule:           "channel 1/2: duty steps counted over a window of K whole periods of 4x(2048-f) clocks must be exactly K (K chosen so that the window is about 20,000 machine cycles); channel 3: wave positions advanced over a window of K periods of 2x(2048-f) clocks (K even); channel 4: machine cycles between changes of the shift register = d(r)x2^s / 4 for every NR43 value with s<=13, and the output bit sequence at r=0,s=0 has period 32767 (15-bit) / 127 (7-bit) and no shorter period. quick: 64 frequencies per channel incl. 0, 1, 2046, 2047 and 64 NR43 values; thorough: all. While a channel is measured the other channels are triggered at random cycles. Signature = (channel, frequency or NR43 bucket).",
 		Assumptions:    []string{"waveform positions are read through the verif accessor (duty index, wave position, shift register)", "the first period after a trigger is not judged (the reload delay after a trigger is not part of the statement)"},
-		RequiredProbes: []string{"sweep_changed_the_frequency", "retuned_without_trigger", "square_periods", "wave_periods", "noise_periods", "lfsr15_period", "lfsr7_period", "other_channel_triggered_during_measurement"},
+		RequiredProbes: []string{"fresh_machine_noise", "sweep_changed_the_frequency", "retuned_without_trigger", "square_periods", "wave_periods", "noise_periods", "lfsr15_period", "lfsr7_period", "other_channel_triggered_during_measurement"},
 		RealComponents: realComponents, StubComponents: stubComponents,
 	}
 }
@@ -81,6 +81,9 @@ func (c21) Generate(r *engine.Rand, index int, tier string) *engine.Scenario {
 		}
 		s, w, rr := v/16, v/8%2, v%8
 		sc.SetP("nr43", int64(s<<4|w<<3|rr))
+		if k%16 == 5 {
+			sc.SetP("fresh", 1)
+		}
 	default:
 		if index%4 >= 2 {
 			// channel 1 while its sweep unit rewrites the frequency (subtraction mode: the frequency
@@ -111,8 +114,11 @@ func (c21) Execute(sc *engine.Scenario) *engine.Result {
 	park(sc, m, res)
 	r := engine.NewRand(uint64(sc.P("dseed", 1)))
 	ch := int(sc.P("ch", 1))
-	m.Write(0xff26, 0x00)
-	m.Write(0xff26, 0x80)
+	fresh := sc.P("fresh", 0) != 0
+	if !fresh {
+		m.Write(0xff26, 0x00)
+		m.Write(0xff26, 0x80)
+	}
 	m.Write(0xff25, 0xff)
 	m.Write(0xff24, 0x77)
 	// disturbance: trigger some other channel at random cycles during the measurement
@@ -218,6 +224,16 @@ func (c21) Execute(sc *engine.Scenario) *engine.Result {
 		res.Sig(fmt.Sprintf("ch%d/f=%d", ch, f/64))
 	case 4:
 		nr43 := uint8(sc.P("nr43", 0))
+		if fresh {
+			// a machine as constructed (sound on, no power cycle, NR43 never written): the generator runs
+			// at the rate of the NR43 value the register reads back
+			nr43 = m.Read(0xff22)
+			res.Probe("fresh_machine_noise")
+			if nr43>>4 > 7 {
+				res.Sig("ch4/fresh/slow")
+				return res
+			}
+		}
 		s, rr := int(nr43>>4), int(nr43&7)
 		d := 8
 		if rr > 0 {
@@ -225,7 +241,9 @@ func (c21) Execute(sc *engine.Scenario) *engine.Result {
 		}
 		periodClocks := d << uint(s)
 		m.Write(0xff21, 0xf0)
-		m.Write(0xff22, nr43)
+		if !fresh {
+			m.Write(0xff22, nr43)
+		}
 		m.Write(0xff23, 0x80)
 		lf := func() uint16 { return m.APU.VerifWave().LFSR }
 		// wait for the first change, then measure the gaps between changes
